@@ -260,7 +260,7 @@ func dagBody(r *explore.Run, rep *report.R, sc, impl string, n, row0 int, allOrd
 		nt = report.Hash("dag", impl, g.String(), variant)
 	}
 	rep.Eval(sc, report.Hash("dag", impl, o1, len(implied)), nt)
-	if nt != "" && g.edges() >= 3 && wantSample(rep, fmt.Sprintf("dag/%s/cyc=%v/missing=%v", impl, cyc, len(g.missing()) > 0)) {
+	if nt != "" && g.edges() >= 3 && len(g.missing()) > 0 && wantSample(rep, fmt.Sprintf("dag/cyc=%v", cyc)) {
 		rep.Sample(map[string]any{"part": "dag", "impl": impl, "graph": g.String(), "map_order": perm, "construction": mode, "cyclic": cyc, "observed": o1, "implied": ids(implied), "choices": append([]int{}, r.Choices...), "scenario": sc})
 	}
 }
